@@ -110,6 +110,40 @@ def run(ctx):
                   f'the list pruned by is_alive() is stored to `{d or norm(t)}` ({readers} readers) instead of the registry `{REG}` '
                   'that register_child appends to and that is yielded: dead workers are never dropped',
                   where=loc(act_f, st))
+    # read-modify-write atomicity: the list that is written back is computed from the registry inside the same critical section
+    for st, t, d, over_reg in pruned_stores:
+        if not (d is not None and d.split('.')[-1] == REG):
+            continue
+        w = _inside_with_lock(pm, st, LOCK)
+        flt = _filters_alive(st.value)
+        srcs = []
+        for gen in getattr(flt, 'generators', []):
+            srcs.append(gen.iter)
+        atomic = w is not None
+        for it in srcs:
+            if isinstance(it, ast.Attribute) and it.attr == REG:
+                continue
+            if isinstance(it, ast.Name):
+                defs = [x for x in walk_local(act_f.node) if isinstance(x, ast.Assign) and any(is_name(tt, it.id) for tt in x.targets)]
+                if not defs or not all(w is not None and any(x is y for y in ast.walk(w)) for x in defs):
+                    atomic = False
+            else:
+                atomic = atomic and any(isinstance(a, ast.Attribute) and a.attr == REG for a in ast.walk(it))
+        if isinstance(st.value, ast.Name):
+            defs = [x for x in walk_local(act_f.node) if isinstance(x, ast.Assign) and any(is_name(tt, st.value.id) for tt in x.targets)]
+            atomic = atomic and bool(defs) and all(any(x is y for y in ast.walk(w)) for x in defs) if w is not None else False
+        ctx.check('R2', 'the registry is read, pruned and written back within one critical section', atomic, 'Worker.active_children', 'prune-not-atomic',
+                  'active_children() computes the pruned list from a snapshot taken in an earlier critical section and writes it back in a later one: a worker registered by another '
+                  'thread in between is overwritten by the stale list and is never listed (nor auto-closed) again', where=loc(act_f, st))
+    # a store of a plain local into the registry: that local must have been computed under the same lock
+    for st in walk_local(act_f.node):
+        if isinstance(st, ast.Assign) and isinstance(st.value, ast.Name) and any((dotted(tt) or '').split('.')[-1] == REG and '.' in (dotted(tt) or '') for tt in st.targets):
+            w = _inside_with_lock(pm, st, LOCK)
+            defs = [x for x in walk_local(act_f.node) if isinstance(x, ast.Assign) and any(is_name(tt, st.value.id) for tt in x.targets)]
+            atomic = w is not None and bool(defs) and all(any(x is y for y in ast.walk(w)) for x in defs)
+            ctx.check('R2', 'the registry is read, pruned and written back within one critical section', atomic, 'Worker.active_children', 'prune-not-atomic',
+                      'active_children() writes back a list computed outside the critical section that stores it: a worker registered by another thread in between is lost',
+                      where=loc(act_f, st))
     # what is yielded must derive from the registry *after* pruning, inside the lock
     yields = [n for n in walk_local(act_f.node) if isinstance(n, (ast.Yield, ast.YieldFrom))]
     ctx.check('R1', 'active_children yields', bool(yields), 'Worker.active_children', 'no-yield', 'active_children yields nothing', where=loc(act_f, act_f.node))
